@@ -1227,7 +1227,7 @@ func main() {
 	}
 	Main(Family{
 		ID: "C51",
-		Rule: "random argument lists (0-3 arguments) of nested ABI types (depth <= 4; uint/int widths 8..256; bytes1..32; T[k] with k in 0..3; tuples of 0..4 fields) with random values built by reflection from Type.GetType(): ABI-typed values, and values outside the declared width in *big.Int positions; valid encodings (from the harness's own specification encoder) mutated by byte replacement, offset/length word corruption, truncation, extension, dirty high/low padding, word swaps; arbitrary byte strings; encodings with only padding bytes dirtied, by class (tolerated / checked). Non-trivial: a round trip evaluated on an encoding of >= 64 bytes, a decode of >= 64 bytes that succeeded or of >= 32 bytes that failed, or a dirty-padding case whose expectation was evaluated; distinct = distinct case line.",
+		Rule: "random argument lists (0-3 arguments) of nested ABI types (depth <= 4; uint/int widths 8..256; bytes1..32; T[k] with k in 0..3; tuples of 0..4 fields) with random values built by reflection from Type.GetType(): ABI-typed values, and values outside the declared width in *big.Int positions; valid encodings (from the harness's own specification encoder) mutated by byte replacement, offset/length word corruption, truncation, extension, dirty high/low padding, word swaps; arbitrary byte strings; encodings with only padding bytes dirtied, by class (tolerated / checked / upper bytes of a dynamic T[k] offset word). Oracle failures with a C51-<class> prefix are the recorded open findings (zero-size static component, non-canonical layout accepted, truncated offset word, unchecked integer width). Non-trivial: a round trip evaluated on an encoding of >= 64 bytes, a decode of >= 64 bytes that succeeded or of >= 32 bytes that failed, or a dirty-padding case whose expectation was evaluated; distinct = distinct case line.",
 		Gen: genCases,
 		Run: run,
 	})
